@@ -627,7 +627,7 @@ nng_err
 nni_url_clone_inline(nng_url *dst, const nng_url *src)
 {
 	if (src->u_bufsz != 0) {
-		if ((dst->u_buffer = nni_alloc(dst->u_bufsz)) == NULL) {
+		if ((dst->u_buffer = nni_alloc(src->u_bufsz)) == NULL) {
 			return (NNG_ENOMEM);
 		}
 		dst->u_bufsz = src->u_bufsz;
@@ -638,8 +638,13 @@ nni_url_clone_inline(nng_url *dst, const nng_url *src)
 		    dst->u_static + (src->u_buffer - src->u_static);
 	}
 
-	dst->u_hostname = dst->u_buffer + (src->u_hostname - src->u_buffer);
-	dst->u_path     = dst->u_buffer + (src->u_path - src->u_buffer);
+	if (src->u_hostname != NULL) {
+		dst->u_hostname =
+		    dst->u_buffer + (src->u_hostname - src->u_buffer);
+	}
+	if (src->u_path != NULL) {
+		dst->u_path = dst->u_buffer + (src->u_path - src->u_buffer);
+	}
 
 	if (src->u_userinfo != NULL) {
 		dst->u_userinfo =
